@@ -162,6 +162,43 @@ def sig_worker(args):
                 ov = ossl.verify(kfile, kind, sg, mm, sc, hh, sl)
             rec('mut:' + cls, False, got, detail=detail, mut_sig=sg.hex() if sg != sig else None,
                 mut_msg=mm.hex() if mm != msg else None, v_scheme=sc, v_hash=hh, v_slen=sl, openssl=ov)
+        # ---- algebraic edge values of each verifier (not reachable by bit flips): r, s in {0, 1, q-1, q, q+1, +q},
+        #      negative / padded DER integers, (r, q-s); EdDSA S+L, S=L, S=0; RSA 0, 1, n-1, n, s+n (same length).
+        #      Expected verdict: reference verifiers written from FIPS 186-4 / RFC 8032 / RFC 8017 (harness/c05_refsig.py)
+        import c05_refsig as R
+        kt = key.key_type
+        dg = None if kind == 'eddsa' else hashlib.new(h, msg).digest()
+        ref_in = msg if kind == 'eddsa' else (dg[:key.public_key.curve.baselen] if kind == 'ecdsa' else dg)
+
+        def ref(sg, m_in=None):
+            if kind in ('rsa', 'rsa-pss') and scheme == 'pss' and slen != U.HLEN[h]:
+                return False if sg != sig else True       # (the reference knows salt length = hash length only)
+            return R.ref_verify(key, kt, h, scheme, ref_in if m_in is None else m_in, sg)
+        for name in R.edge_names(kt):
+            try:
+                sg = R.edge_signature(key, kt, sig, name)
+            except Exception:  # noqa
+                continue
+            want_e = bool(ref(sg))
+            got = U.tl_verify(key, kind, sg, msg, scheme, h, slen)
+            rec('edge:' + name, want_e, got, mut_sig=sg.hex(), v_scheme=scheme, v_hash=h, v_slen=slen,
+                openssl=ossl.verify(kfile, kind, sg, msg, scheme, h, slen) if ossl_on_mut or name in ('q-s', 'sig+n', 'r1-s0', 'S+L') else None)
+        if kind in ('rsa', 'rsa-pss'):
+            # RFC 8017 5.2.2 step 1: a signature representative >= n is out of range.  s+n has the same byte
+            # length only when s < 256^k - n: search messages until it fits (always for the 8k+1-bit key)
+            k = (int(key.n).bit_length() + 7) // 8
+            for t in range(64):
+                mt = msg if t == 0 else msg + b'|' + str(t).encode()
+                st = sig if t == 0 else U.tl_sign(key, kind, mt, scheme, h, slen)
+                v = int.from_bytes(st, 'big') + int(key.n)
+                if v < 256 ** k:
+                    sg = v.to_bytes(k, 'big')
+                    rec('edge:sig+n-same-length', False, U.tl_verify(key, kind, sg, mt, scheme, h, slen), mut_sig=sg.hex(),
+                        mut_msg=mt.hex() if mt != msg else None, v_scheme=scheme, v_hash=h, v_slen=slen,
+                        detail='found after %d signature(s)' % (t + 1), openssl=ossl.verify(kfile, kind, sg, mt, scheme, h, slen))
+                    break
+                if int(key.n) >> (8 * k - 4) >= 14 and t >= 5:
+                    break          # modulus 0xE.../0xF...: s+n almost never fits in k bytes
         # ---- an rsa-pss key must not verify PKCS#1 v1.5 even when such a signature was made with it
         if kind == 'rsa-pss' and scheme == 'pss' and slen == U.HLEN[h]:
             try:
@@ -660,8 +697,13 @@ def model_cases_worker(args):
                 lb = U.rsa_private_raw(key, b'\x01' + em1)
                 if lb is not None:
                     cands.append(('leading-byte-01', lb, slen))
+                vn = int.from_bytes(sig, 'big') + int(key.n)
+                if vn < 256 ** len(sig):
+                    cands.insert(1, ('valid-plus-n', vn.to_bytes(len(sig), 'big'), slen))
             cands.append(('too-big', (int(key.n) + 5).to_bytes(len(sig), 'big') if (int(key.n) + 5).bit_length() <= 8 * len(sig) else sig, slen))
-            for cls, sg, vs in (rng.sample(cands, min(len(cands), 3)) if i >= 2 else cands):
+            chosen = rng.sample(cands, min(len(cands), 3)) if i >= 2 else cands
+            chosen += [c for c in cands if c[0] == 'valid-plus-n' and c not in chosen]
+            for cls, sg, vs in chosen:
                 vh = h
                 if rng.random() < 0.1:
                     vh = rng.choice(['sha1', 'sha256', 'whirlpool'])
@@ -907,7 +949,9 @@ def model_cases_worker(args):
             else:
                 for cls, rr, ss, dd in [('valid', r, s_, data), ('r+1', r + 1, s_, data), ('s+1', r, s_ + 1, data), ('r=0', 0, s_, data),
                                         ('s=q', r, q, data), ('r+q', r + q, s_, data), ('data', r, s_, data + b'\x01'),
-                                        ('random', rng.randrange(1, q), rng.randrange(1, q), data)]:
+                                        ('random', rng.randrange(1, q), rng.randrange(1, q), data)] + \
+                        [('edge-%d-%d' % (a, b), a, b, data) for a in (0, 1, q - 1, q, q + 1) for b in (0, 1, q - 1, q)
+                         if (a, b) != (q - 1, q - 1)][(i % 4)::4] + [('edge-1-0', 1, 0, data), ('edge-r-sq', r, s_ + q, data), ('edge-rq-s', r + q, s_, data)]:
                     try:
                         impl = bool(key.verify(bytearray(encode_sequence(encode_integer(rr), encode_integer(ss))), bytearray(dd)))
                     except Exception:  # noqa
